@@ -124,7 +124,7 @@ func TestCompileFixed(t *testing.T) {
 	}
 	defer sess.Close()
 	sess.GenTimeout = 300 * time.Second
-	designs := []*m.Design{gen.KindMatrix(), gen.ParamMatrix(), gen.ViewMatrix(), gen.DefaultsMatrix(), gen.GRPCMatrix(), gen.MapKeyMatrix(), gen.VerbMatrix(), gen.ValidationMatrix(), gen.RawBodyMatrix(), gen.StreamMatrix(), gen.GRPCStreamMatrix(), gen.MapParamsMatrix(), gen.NestMatrix(), gen.SecurityMatrix(), gen.RecursiveMatrix(), gen.WildcardMatrix(), gen.InheritMatrix(), gen.GetBodyMatrix(), gen.MultipartMatrix()}
+	designs := []*m.Design{gen.KindMatrix(), gen.ParamMatrix(), gen.ViewMatrix(), gen.DefaultsMatrix(), gen.GRPCMatrix(), gen.MapKeyMatrix(), gen.VerbMatrix(), gen.ValidationMatrix(), gen.RawBodyMatrix(), gen.StreamMatrix(), gen.GRPCStreamMatrix(), gen.MapParamsMatrix(), gen.NestMatrix(), gen.SecurityMatrix(), gen.RecursiveMatrix(), gen.WildcardMatrix(), gen.InheritMatrix(), gen.GetBodyMatrix(), gen.MultipartMatrix(), gen.RespCookieMatrix()}
 	if only := os.Getenv("VERIF_FIXED_ONLY"); only != "" { // development aid: one fixed design
 		var sel []*m.Design
 		for _, d := range designs {
